@@ -175,6 +175,7 @@ func C05(p *core.Program, r *core.Report) {
 		}
 	}
 	checkWholesaleCopies(p, r, "S3")
+	checkPicturePruning(p, r, "S3")
 }
 
 func shortVal(s string) string {
